@@ -84,11 +84,16 @@ def standard_programs(ctx, n_random, n_per_carrier=2, full=False, streams=('corp
     return progs
 
 
-def shrink(src, still_fails, max_rounds=8):
-    """greedy line/segment deletion while the failure persists.
+def shrink(src, still_fails, max_rounds=8, budget_s=120):
+    """greedy line/segment deletion while the failure persists, within a time budget (a violation must be
+    reported in bounded time: when the budget is used up the smallest failing input found so far is returned).
     still_fails(list_of_sources) -> list of bool (batch evaluation)"""
+    import time
+    t_end = time.time() + budget_s
     cur = src
     for _ in range(max_rounds):
+        if time.time() > t_end:
+            break
         lines = cur.split('\n')
         cands = []
         for i in range(len(lines)):
@@ -101,7 +106,8 @@ def shrink(src, still_fails, max_rounds=8):
             k = max(cur.rfind(';', 0, j), cur.rfind('{', 0, j), cur.rfind('}', 0, j))
             if k >= 0 and j - k > 1:
                 cands.append(cur[:k + 1] + cur[j + 1:])
-        cands = list(dict.fromkeys(cands))[:120]
+        # large inputs: fewer candidates per round (the cost of a round is about candidates x size)
+        cands = list(dict.fromkeys(cands))[:max(8, min(120, 300000 // max(len(cur), 1)))]
         if not cands:
             break
         res = still_fails(cands)
